@@ -145,7 +145,7 @@ def run_placer(case):
     from rig.place_and_route.exceptions import (InsufficientResourceError,
                                                 InvalidConstraintError)
     vr, nets, machine, cons, vobj = gp.build_problem(case)
-    back = dict((id(o) if case["vkind"] == "obj" else o, n)
+    back = dict((id(o) if case["vkind"] in ("obj", "idobj") else o, n)
                 for n, o in vobj.items())
     old = signal.signal(signal.SIGALRM, _alarm)
     signal.alarm(120)
@@ -163,7 +163,7 @@ def run_placer(case):
             {"type": type(out).__name__})
     by_name = {}
     for k, c in out.items():
-        n = back.get(id(k) if case["vkind"] == "obj" else k)
+        n = back.get(id(k) if case["vkind"] in ("obj", "idobj") else k)
         by_name[n if n is not None else ("?", repr(k))] = \
             tuple(c) if isinstance(c, (tuple, list)) else c
     return "placed", by_name
